@@ -2225,7 +2225,11 @@ impl Element for XmlElement {
                     .iter()
                     .any(|v| equal_qname(v.borrow().qname(), attr.qname()))
             {
-                items.push(XmlAttribute::new_from_declaration(attr, self.context()));
+                // the defaulted attribute belongs to this element: its declared type (and with it the
+                // normalization of its value) is looked up through the owner
+                let defaulted = XmlAttribute::new_from_declaration(attr, self.context());
+                defaulted.borrow_mut().set_parent_id(Some(self.id()));
+                items.push(defaulted);
             }
         }
 
